@@ -984,6 +984,7 @@ func genReseg(t *rapid.T) (resegCase, bool, []string) {
 	}
 	huge := genHugeDurs(t, &tr)
 	lay := fragbuild.GenLayout(t, []fragbuild.Track{tr}, libLayoutOpt())
+	otherBase(t, &lay)
 	fitSidx(&tr, &lay)
 	c := resegCase{Track: tr, Layout: lay}
 	if huge && rapid.Bool().Draw(t, "chunkDurPrefix") {
@@ -1156,6 +1157,7 @@ func genFragm(t *rapid.T) (fragmCase, bool, []string) {
 	tr := genFragTrack(t, harness.Pick(24, 48), true)
 	huge := genHugeDurs(t, &tr)
 	lay := fragbuild.GenLayout(t, []fragbuild.Track{tr}, libLayoutOpt())
+	otherBase(t, &lay)
 	fitSidx(&tr, &lay)
 	c := fragmCase{Track: tr, Layout: lay}
 	var d uint64
@@ -1335,4 +1337,19 @@ func TestCombineSegs(t *testing.T) {
 	harness.RunRapid(t, "combinesegs", func(rt *rapid.T) {
 		runBatch(rt, "combinesegs", batchSize, genCombine, evalCombine)
 	})
+}
+
+// otherBase: in 1 layout of 6 the fragments with an explicit base_data_offset (= moof start) get one that is NOT the
+// moof start (fragbuild Base 3): the trun data offsets then count from that other absolute position.
+func otherBase(t *rapid.T, lay *fragbuild.FileLayout) {
+	if rapid.IntRange(0, 5).Draw(t, "otherBase") != 0 {
+		return
+	}
+	for si := range lay.Segments {
+		for fi := range lay.Segments[si].Frags {
+			if o := &lay.Segments[si].Frags[fi].Opts; o.Base == 1 {
+				o.Base = 3
+			}
+		}
+	}
 }
